@@ -277,7 +277,11 @@ pub fn channel_twins(ctx: &Ctx) -> Report {
             let bad = match res {
                 Ok(None) => None,
                 Ok(Some((i, what))) => Some((i, what)),
-                Err(p) => Some((0, format!("panicked: {}", p))),
+                Err(_) => {
+                    // both twins were fed the same bytes in lock step: a panic is C17's subject, not a divergence
+                    rep.count("c20.channel_twin_aborted_by_panic", 1);
+                    None
+                }
             };
             if let Some((i, what)) = bad {
                 let mut t = Text::parse(&h.to_text("C20", i)).unwrap();
